@@ -1,4 +1,18 @@
 // K-ARC: AdaptiveCache contracts (C09, and C01/C02/C03/C05/C12/C13/C14 for this cache type).
+// Non-blocking check: Kani's `assert!` assumes its condition afterwards, so the first failing conjunct of a contract
+// would hide every later one on the same path (and with it the verdicts of the other properties that harness serves).
+// `ck!` performs the check on a nondeterministically chosen side branch, so every conjunct is reported independently.
+macro_rules! ck {
+    ($c:expr, $m:literal) => {
+        if kani::any::<bool>() {
+            assert!($c, $m);
+        }
+    };
+    ($c:expr) => {
+        assert!($c)
+    };
+}
+
 use super::*;
 use crate::verif_hooks::gen::{any_abs, build, N};
 use crate::verif_hooks::spec::*;
@@ -26,15 +40,15 @@ pub fn any_arc() -> (Arc4, ArcAbs) {
 
 macro_rules! arc_inv {
     ($c:expr, $wf:expr, $pre:expr, $post:expr) => {
-        assert!($wf, "[C03.wf] the four ARC lists are well-formed chains matching their indexes (nodes migrate between them)");
-        assert!($post.recent.n + $post.frequent.n <= $post.size, "[C01.cap][C09.room] resident entries (recent + frequent) never exceed cap(): a full cache makes room before admitting");
-        assert!($post.recent_evict.n <= $post.size && $post.frequent_evict.n <= $post.size, "[C01.cap] each ghost list stays within its bound");
-        assert!($post.p <= $post.size, "[C09.p] 0 <= p <= size");
-        assert!($post.size == $pre.size && $post.recent.cap == $pre.size && $post.frequent.cap == $pre.size
+        ck!($wf, "[C03.wf] the four ARC lists are well-formed chains matching their indexes (nodes migrate between them)");
+        ck!($post.recent.n + $post.frequent.n <= $post.size, "[C01.cap][C09.room] resident entries (recent + frequent) never exceed cap(): a full cache makes room before admitting");
+        ck!($post.recent_evict.n <= $post.size && $post.frequent_evict.n <= $post.size, "[C01.cap] each ghost list stays within its bound");
+        ck!($post.p <= $post.size, "[C09.p] 0 <= p <= size");
+        ck!($post.size == $pre.size && $post.recent.cap == $pre.size && $post.frequent.cap == $pre.size
             && $post.recent_evict.cap == $pre.size && $post.frequent_evict.cap == $pre.size, "[C01.cap] configured sizes never change");
-        assert!(partitioned(&[&$post.recent, &$post.frequent, &$post.recent_evict, &$post.frequent_evict]), "[C01.partition] a key is held in at most one of the four lists");
-        assert!($c.len() == $post.recent.n + $post.frequent.n && $c.cap() == $pre.size, "[C01.len] len() counts the resident entries, cap() is the configured size");
-        assert!($c.is_empty() == ($post.recent.n + $post.frequent.n + $post.recent_evict.n + $post.frequent_evict.n == 0), "[C01.empty] is_empty() iff nothing (resident or ghost) is retained");
+        ck!(partitioned(&[&$post.recent, &$post.frequent, &$post.recent_evict, &$post.frequent_evict]), "[C01.partition] a key is held in at most one of the four lists");
+        ck!($c.len() == $post.recent.n + $post.frequent.n && $c.cap() == $pre.size, "[C01.len] len() counts the resident entries, cap() is the configured size");
+        ck!($c.is_empty() == ($post.recent.n + $post.frequent.n + $post.recent_evict.n + $post.frequent_evict.n == 0), "[C01.empty] is_empty() iff nothing (resident or ghost) is retained");
     };
 }
 
@@ -160,41 +174,41 @@ fn arc_put() {
     let (post, wf) = c.verif_check();
     arc_inv!(c, wf, pre, post);
     if in_resident {
-        assert!(arc_put_truthful(&pre, &post, k, v, pr_of(&r)), "[C12.result][C12.delta] put on a resident key reports Update(old); nothing leaves");
+        ck!(arc_put_truthful(&pre, &post, k, v, pr_of(&r)), "[C12.result][C12.delta] put on a resident key reports Update(old); nothing leaves");
         if let Some(i) = pre.recent.pos(k) {
-            assert!(pr_of(&r) == PR::Update(pre.recent.v[i]), "[C12.result] put on a recent entry returns Update(old)");
-            assert!(post.recent.view_eq(&pre.recent.remove_at(i)) && post.frequent.view_eq(&pre.frequent.push_front(k, v)),
+            ck!(pr_of(&r) == PR::Update(pre.recent.v[i]), "[C12.result] put on a recent entry returns Update(old)");
+            ck!(post.recent.view_eq(&pre.recent.remove_at(i)) && post.frequent.view_eq(&pre.frequent.push_front(k, v)),
                 "[C09.promote][C02.value] a second access by put moves the entry from recent to the front of frequent with the new value");
         } else {
             let i = pre.frequent.pos(k).unwrap();
-            assert!(pr_of(&r) == PR::Update(pre.frequent.v[i]), "[C12.result] put on a frequent entry returns Update(old)");
-            assert!(post.frequent.view_eq(&pre.frequent.touch(i, Some(v))) && post.recent == pre.recent, "[C09.frequent][C02.value] put on a frequent entry refreshes it with the new value");
+            ck!(pr_of(&r) == PR::Update(pre.frequent.v[i]), "[C12.result] put on a frequent entry returns Update(old)");
+            ck!(post.frequent.view_eq(&pre.frequent.touch(i, Some(v))) && post.recent == pre.recent, "[C09.frequent][C02.value] put on a frequent entry refreshes it with the new value");
         }
-        assert!(post.p == pre.p && post.recent_evict == pre.recent_evict && post.frequent_evict == pre.frequent_evict, "[C09.p] a resident hit leaves p and the ghost lists alone");
+        ck!(post.p == pre.p && post.recent_evict == pre.recent_evict && post.frequent_evict == pre.frequent_evict, "[C09.p] a resident hit leaves p and the ghost lists alone");
 
     } else if in_b1 {
         let (b1, b2) = (pre.recent_evict.n, pre.frequent_evict.n);
         let delta = if b2 / b1 > 1 { b2 / b1 } else { 1 };
         let p2 = if pre.p + delta > pre.size { pre.size } else { pre.p + delta };
-        assert!(post.p == p2, "[C09.p] a hit on the recent ghost list raises p by max(1, |frequent ghosts| / |recent ghosts|), capped at the cache size");
+        ck!(post.p == p2, "[C09.p] a hit on the recent ghost list raises p by max(1, |frequent ghosts| / |recent ghosts|), capped at the cache size");
         let old = pre.recent_evict.val_of(k).unwrap();
-        assert!(pr_of(&r) == PR::Update(old) && arc_put_truthful(&pre, &post, k, v, pr_of(&r)), "[C12.result][C12.delta] reviving a ghost returns Update(old); no resident entry leaves unreported");
+        ck!(pr_of(&r) == PR::Update(old) && arc_put_truthful(&pre, &post, k, v, pr_of(&r)), "[C12.result][C12.delta] reviving a ghost returns Update(old); no resident entry leaves unreported");
         if !full {
-            assert!(post.recent == pre.recent && post.frequent.view_eq(&pre.frequent.push_front(k, v)), "[C09.revive][C02.value] the ghost key is revived into the front of frequent");
-            assert!(ghost_ok(&post.recent_evict, &pre.recent_evict, None, Some(k)) && ghost_ok(&post.frequent_evict, &pre.frequent_evict, None, None), "[C09.ghost] ghost lists only lose entries");
+            ck!(post.recent == pre.recent && post.frequent.view_eq(&pre.frequent.push_front(k, v)), "[C09.revive][C02.value] the ghost key is revived into the front of frequent");
+            ck!(ghost_ok(&post.recent_evict, &pre.recent_evict, None, Some(k)) && ghost_ok(&post.frequent_evict, &pre.frequent_evict, None, None), "[C09.ghost] ghost lists only lose entries");
         } else {
             let from_recent = victim_from_recent(pre.recent.n, pre.frequent.n, p2, false);
             if from_recent {
                 let vic = pre.recent.last().unwrap();
-                assert!(post.recent.view_eq(&pre.recent.drop_last()) && post.frequent.view_eq(&pre.frequent.push_front(k, v)),
+                ck!(post.recent.view_eq(&pre.recent.drop_last()) && post.frequent.view_eq(&pre.frequent.push_front(k, v)),
                     "[C09.victim][C09.revive] full: recent longer than p gives up its least-recent entry; the ghost key is revived into the front of frequent");
-                assert!(ghost_ok(&post.recent_evict, &pre.recent_evict, Some(vic), Some(k)) && ghost_ok(&post.frequent_evict, &pre.frequent_evict, None, None),
+                ck!(ghost_ok(&post.recent_evict, &pre.recent_evict, Some(vic), Some(k)) && ghost_ok(&post.frequent_evict, &pre.frequent_evict, None, None),
                     "[C09.ghost] the victim is remembered at the front of the matching ghost list");
             } else {
                 let vic = pre.frequent.last().unwrap();
-                assert!(post.recent == pre.recent && post.frequent.view_eq(&pre.frequent.drop_last().push_front(k, v)),
+                ck!(post.recent == pre.recent && post.frequent.view_eq(&pre.frequent.drop_last().push_front(k, v)),
                     "[C09.victim][C09.revive] full: otherwise frequent gives up its least-recent entry (falling back to the non-empty list)");
-                assert!(ghost_ok(&post.frequent_evict, &pre.frequent_evict, Some(vic), None) && ghost_ok(&post.recent_evict, &pre.recent_evict, None, Some(k)),
+                ck!(ghost_ok(&post.frequent_evict, &pre.frequent_evict, Some(vic), None) && ghost_ok(&post.recent_evict, &pre.recent_evict, None, Some(k)),
                     "[C09.ghost] the victim is remembered at the front of the matching ghost list");
             }
         }
@@ -203,48 +217,48 @@ fn arc_put() {
         let (b1, b2) = (pre.recent_evict.n, pre.frequent_evict.n);
         let delta = if b1 / b2 > 1 { b1 / b2 } else { 1 };
         let p2 = if delta >= pre.p { 0 } else { pre.p - delta };
-        assert!(post.p == p2, "[C09.p] a hit on the frequent ghost list lowers p by max(1, |recent ghosts| / |frequent ghosts|), floored at 0");
+        ck!(post.p == p2, "[C09.p] a hit on the frequent ghost list lowers p by max(1, |recent ghosts| / |frequent ghosts|), floored at 0");
         let old = pre.frequent_evict.val_of(k).unwrap();
-        assert!(pr_of(&r) == PR::Update(old) && arc_put_truthful(&pre, &post, k, v, pr_of(&r)), "[C12.result][C12.delta] reviving a ghost returns Update(old); no resident entry leaves unreported");
+        ck!(pr_of(&r) == PR::Update(old) && arc_put_truthful(&pre, &post, k, v, pr_of(&r)), "[C12.result][C12.delta] reviving a ghost returns Update(old); no resident entry leaves unreported");
         if !full {
-            assert!(post.recent == pre.recent && post.frequent.view_eq(&pre.frequent.push_front(k, v)), "[C09.revive][C02.value] the ghost key is revived into the front of frequent");
-            assert!(ghost_ok(&post.frequent_evict, &pre.frequent_evict, None, Some(k)) && ghost_ok(&post.recent_evict, &pre.recent_evict, None, None), "[C09.ghost] ghost lists only lose entries");
+            ck!(post.recent == pre.recent && post.frequent.view_eq(&pre.frequent.push_front(k, v)), "[C09.revive][C02.value] the ghost key is revived into the front of frequent");
+            ck!(ghost_ok(&post.frequent_evict, &pre.frequent_evict, None, Some(k)) && ghost_ok(&post.recent_evict, &pre.recent_evict, None, None), "[C09.ghost] ghost lists only lose entries");
         } else {
             let from_recent = victim_from_recent(pre.recent.n, pre.frequent.n, p2, true);
             if from_recent {
                 let vic = pre.recent.last().unwrap();
-                assert!(post.recent.view_eq(&pre.recent.drop_last()) && post.frequent.view_eq(&pre.frequent.push_front(k, v)),
+                ck!(post.recent.view_eq(&pre.recent.drop_last()) && post.frequent.view_eq(&pre.frequent.push_front(k, v)),
                     "[C09.victim][C09.revive] full: recent longer than p (or equal to p on a frequent-ghost hit) gives up its least-recent entry");
-                assert!(ghost_ok(&post.recent_evict, &pre.recent_evict, Some(vic), None) && ghost_ok(&post.frequent_evict, &pre.frequent_evict, None, Some(k)),
+                ck!(ghost_ok(&post.recent_evict, &pre.recent_evict, Some(vic), None) && ghost_ok(&post.frequent_evict, &pre.frequent_evict, None, Some(k)),
                     "[C09.ghost] the victim is remembered at the front of the matching ghost list");
             } else {
                 let vic = pre.frequent.last().unwrap();
-                assert!(post.recent == pre.recent && post.frequent.view_eq(&pre.frequent.drop_last().push_front(k, v)),
+                ck!(post.recent == pre.recent && post.frequent.view_eq(&pre.frequent.drop_last().push_front(k, v)),
                     "[C09.victim][C09.revive] full: otherwise frequent gives up its least-recent entry (falling back to the non-empty list)");
-                assert!(ghost_ok(&post.frequent_evict, &pre.frequent_evict, Some(vic), Some(k)) && ghost_ok(&post.recent_evict, &pre.recent_evict, None, None),
+                ck!(ghost_ok(&post.frequent_evict, &pre.frequent_evict, Some(vic), Some(k)) && ghost_ok(&post.recent_evict, &pre.recent_evict, None, None),
                     "[C09.ghost] the victim is remembered at the front of the matching ghost list");
             }
         }
 
     } else if is_new {
-        assert!(pr_of(&r) == PR::Put && arc_put_truthful(&pre, &post, k, v, pr_of(&r)), "[C12.result][C12.delta] a new key is a Put: the demoted entry stays retained as a ghost, only ghosts leave (silently)");
-        assert!(post.p == pre.p, "[C09.p] a brand-new key does not move p");
+        ck!(pr_of(&r) == PR::Put && arc_put_truthful(&pre, &post, k, v, pr_of(&r)), "[C12.result][C12.delta] a new key is a Put: the demoted entry stays retained as a ghost, only ghosts leave (silently)");
+        ck!(post.p == pre.p, "[C09.p] a brand-new key does not move p");
         if !full {
-            assert!(post.recent.view_eq(&pre.recent.push_front(k, v)) && post.frequent == pre.frequent, "[C09.enter][C02.value] entries seen once sit at the front of the recent list");
-            assert!(ghost_ok(&post.recent_evict, &pre.recent_evict, None, None) && ghost_ok(&post.frequent_evict, &pre.frequent_evict, None, None), "[C09.ghost] ghost lists only lose entries");
+            ck!(post.recent.view_eq(&pre.recent.push_front(k, v)) && post.frequent == pre.frequent, "[C09.enter][C02.value] entries seen once sit at the front of the recent list");
+            ck!(ghost_ok(&post.recent_evict, &pre.recent_evict, None, None) && ghost_ok(&post.frequent_evict, &pre.frequent_evict, None, None), "[C09.ghost] ghost lists only lose entries");
         } else {
             let from_recent = victim_from_recent(pre.recent.n, pre.frequent.n, pre.p, false);
             if from_recent {
                 let vic = pre.recent.last().unwrap();
-                assert!(post.recent.view_eq(&pre.recent.drop_last().push_front(k, v)) && post.frequent == pre.frequent,
+                ck!(post.recent.view_eq(&pre.recent.drop_last().push_front(k, v)) && post.frequent == pre.frequent,
                     "[C09.victim][C09.enter] full: recent longer than p gives up its least-recent entry, the new key enters the front of recent");
-                assert!(post.recent_evict.subseq_of(&pre.recent_evict.push_front(vic.0, vic.1)) && ghost_ok(&post.frequent_evict, &pre.frequent_evict, None, None),
+                ck!(post.recent_evict.subseq_of(&pre.recent_evict.push_front(vic.0, vic.1)) && ghost_ok(&post.frequent_evict, &pre.frequent_evict, None, None),
                     "[C09.ghost] the victim goes to the front of the matching ghost list; ghost lists otherwise only lose entries (ARC may trim them silently)");
             } else {
                 let vic = pre.frequent.last().unwrap();
-                assert!(post.recent.view_eq(&pre.recent.push_front(k, v)) && post.frequent.view_eq(&pre.frequent.drop_last()),
+                ck!(post.recent.view_eq(&pre.recent.push_front(k, v)) && post.frequent.view_eq(&pre.frequent.drop_last()),
                     "[C09.victim][C09.enter] full: otherwise frequent gives up its least-recent entry (falling back to the non-empty list)");
-                assert!(post.frequent_evict.subseq_of(&pre.frequent_evict.push_front(vic.0, vic.1)) && ghost_ok(&post.recent_evict, &pre.recent_evict, None, None),
+                ck!(post.frequent_evict.subseq_of(&pre.frequent_evict.push_front(vic.0, vic.1)) && ghost_ok(&post.recent_evict, &pre.recent_evict, None, None),
                     "[C09.ghost] the victim goes to the front of the matching ghost list; ghost lists otherwise only lose entries (ARC may trim them silently)");
             }
         }
@@ -268,7 +282,7 @@ fn arc_get() {
     let (post, wf) = c.verif_check();
     arc_inv!(c, wf, pre, post);
     let nv = if mutable { Some(w) } else { None };
-    assert!(r == lookup(&[&pre.recent, &pre.frequent], k), "[C02.lookup] get/get_mut return exactly the stored value of a resident key; ghosts and absent keys give None");
+    ck!(r == lookup(&[&pre.recent, &pre.frequent], k), "[C02.lookup] get/get_mut return exactly the stored value of a resident key; ghosts and absent keys give None");
     let mut exp = pre;
     if let Some(i) = pre.frequent.pos(k) {
         exp.frequent = pre.frequent.touch(i, nv);
@@ -277,8 +291,8 @@ fn arc_get() {
         exp.recent = pre.recent.remove_at(i);
         exp.frequent = pre.frequent.push_front(k, nvv);
     }
-    assert!(post.recent.view_eq(&exp.recent) && post.frequent.view_eq(&exp.frequent), "[C09.promote][C02.write] get/get_mut move a recent entry to the front of frequent, refresh a frequent one, and change nothing on a miss");
-    assert!(post.p == pre.p && post.recent_evict == pre.recent_evict && post.frequent_evict == pre.frequent_evict, "[C09.p][C13.miss] lookups leave p and the ghost lists alone");
+    ck!(post.recent.view_eq(&exp.recent) && post.frequent.view_eq(&exp.frequent), "[C09.promote][C02.write] get/get_mut move a recent entry to the front of frequent, refresh a frequent one, and change nothing on a miss");
+    ck!(post.p == pre.p && post.recent_evict == pre.recent_evict && post.frequent_evict == pre.frequent_evict, "[C09.p][C13.miss] lookups leave p and the ghost lists alone");
     c.verif_forget();
 }
 
@@ -292,15 +306,15 @@ fn arc_readonly() {
     kani::cover!(pre.recent.has(k) && w.is_none(), "arc peek: recent hit");
     kani::cover!(pre.recent_evict.has(k), "arc peek: ghost key");
     let want = lookup(&[&pre.recent, &pre.frequent], k);
-    assert!(c.peek(&k).copied() == want, "[C02.lookup] peek returns exactly the stored value of a resident key, None otherwise");
-    assert!(c.contains(&k) == want.is_some(), "[C02.lookup] contains agrees with residency (a ghost is not resident)");
-    assert!(c.recent_len() == pre.recent.n && c.frequent_len() == pre.frequent.n && c.recent_evict_len() == pre.recent_evict.n
+    ck!(c.peek(&k).copied() == want, "[C02.lookup] peek returns exactly the stored value of a resident key, None otherwise");
+    ck!(c.contains(&k) == want.is_some(), "[C02.lookup] contains agrees with residency (a ghost is not resident)");
+    ck!(c.recent_len() == pre.recent.n && c.frequent_len() == pre.frequent.n && c.recent_evict_len() == pre.recent_evict.n
         && c.frequent_evict_len() == pre.frequent_evict.n && c.partition() == pre.p, "[C01.len] per-list len accessors and partition() report the cache's own numbers");
     let got = match c.peek_mut(&k) {
         Some(x) => { let o = *x; if let Some(w) = w { *x = w; } Some(o) }
         None => None,
     };
-    assert!(got == want, "[C02.lookup] peek_mut hands out the stored value of a resident key, None otherwise");
+    ck!(got == want, "[C02.lookup] peek_mut hands out the stored value of a resident key, None otherwise");
     let (post, wf) = c.verif_check();
     arc_inv!(c, wf, pre, post);
     let mut exp = pre;
@@ -308,7 +322,7 @@ fn arc_readonly() {
         if let Some(i) = pre.recent.pos(k) { exp.recent = pre.recent.with_val(i, w); }
         if let Some(i) = pre.frequent.pos(k) { exp.frequent = pre.frequent.with_val(i, w); }
     }
-    assert!(post == exp, "[C13.readonly][C02.write] peek, contains, accessors and peek_mut change nothing but a value written through peek_mut");
+    ck!(post == exp, "[C13.readonly][C02.write] peek, contains, accessors and peek_mut change nothing but a value written through peek_mut");
     c.verif_forget();
 }
 
@@ -326,23 +340,23 @@ fn arc_remove_purge() {
         c.purge();
         let (post, wf) = c.verif_check();
         arc_inv!(c, wf, pre, post);
-        assert!(post.recent.n + post.frequent.n + post.recent_evict.n + post.frequent_evict.n == 0 && c.is_empty(), "[C09.purge][C02.absent] purge releases every resident and ghost entry");
+        ck!(post.recent.n + post.frequent.n + post.recent_evict.n + post.frequent_evict.n == 0 && c.is_empty(), "[C09.purge][C02.absent] purge releases every resident and ghost entry");
     } else {
         let r = c.remove(&k);
         let (post, wf) = c.verif_check();
         arc_inv!(c, wf, pre, post);
         if let Some(val) = lookup(&[&pre.recent, &pre.frequent], k) {
-            assert!(r == Some(val), "[C02.remove] remove hands back the stored value of a resident key");
+            ck!(r == Some(val), "[C02.remove] remove hands back the stored value of a resident key");
         }
         let all: [&Abs; 4] = [&pre.recent, &pre.frequent, &pre.recent_evict, &pre.frequent_evict];
         if lookup(&all, k).is_none() {
-            assert!(r.is_none() && post == pre, "[C02.remove] removing a key that is not retained returns None and changes nothing");
+            ck!(r.is_none() && post == pre, "[C02.remove] removing a key that is not retained returns None and changes nothing");
         }
-        assert!(!c.contains(&k) && holders(&[&post.recent, &post.frequent], k) == 0, "[C02.absent] a removed key is no longer resident");
+        ck!(!c.contains(&k) && holders(&[&post.recent, &post.frequent], k) == 0, "[C02.absent] a removed key is no longer resident");
         let rm = |a: &Abs| match a.pos(k) { Some(i) => a.remove_at(i), None => a.canon() };
-        assert!(post.recent == rm(&pre.recent) && post.frequent == rm(&pre.frequent) && post.p == pre.p, "[C09.remove][C02.map] remove takes out exactly that key from the resident lists; order of everything else, and p, kept");
+        ck!(post.recent == rm(&pre.recent) && post.frequent == rm(&pre.frequent) && post.p == pre.p, "[C09.remove][C02.map] remove takes out exactly that key from the resident lists; order of everything else, and p, kept");
         // the statement says nothing about ghosts of a removed key: each ghost list is unchanged or has lost exactly that key
-        assert!((post.recent_evict == pre.recent_evict.canon() || post.recent_evict == rm(&pre.recent_evict))
+        ck!((post.recent_evict == pre.recent_evict.canon() || post.recent_evict == rm(&pre.recent_evict))
             && (post.frequent_evict == pre.frequent_evict.canon() || post.frequent_evict == rm(&pre.frequent_evict)), "[C09.remove] remove leaves the other ghosts alone");
     }
     c.verif_forget();
@@ -368,14 +382,14 @@ macro_rules! arc_list_accessors {
             let kv = |p: (&u8, &u8)| (*p.0, *p.1);
             let kvm = |p: (&u8, &mut u8)| (*p.0, *p.1);
             let (first, last) = (a.first(), a.last());
-            assert!(first_len!(c.$iter(), kv) == (a.n, first) && first_len!(c.$iter_mut(), kvm) == (a.n, first), "[C14.accessor] *_iter / *_iter_mut hand out that list's most-recent-first iterator");
-            assert!(first_len!(c.$iter_lru(), kv) == (a.n, last) && first_len!(c.$iter_lru_mut(), kvm) == (a.n, last), "[C14.accessor] *_iter_lru / *_iter_lru_mut hand out that list's least-recent-first iterator");
-            assert!(first_len!(c.$keys(), |x: &u8| *x) == (a.n, first.map(|p| p.0)) && first_len!(c.$keys_lru(), |x: &u8| *x) == (a.n, last.map(|p| p.0)), "[C14.accessor] *_keys / *_keys_lru hand out that list's key iterators");
-            assert!(first_len!(c.$values(), |x: &u8| *x) == (a.n, first.map(|p| p.1)) && first_len!(c.$values_lru(), |x: &u8| *x) == (a.n, last.map(|p| p.1))
+            ck!(first_len!(c.$iter(), kv) == (a.n, first) && first_len!(c.$iter_mut(), kvm) == (a.n, first), "[C14.accessor] *_iter / *_iter_mut hand out that list's most-recent-first iterator");
+            ck!(first_len!(c.$iter_lru(), kv) == (a.n, last) && first_len!(c.$iter_lru_mut(), kvm) == (a.n, last), "[C14.accessor] *_iter_lru / *_iter_lru_mut hand out that list's least-recent-first iterator");
+            ck!(first_len!(c.$keys(), |x: &u8| *x) == (a.n, first.map(|p| p.0)) && first_len!(c.$keys_lru(), |x: &u8| *x) == (a.n, last.map(|p| p.0)), "[C14.accessor] *_keys / *_keys_lru hand out that list's key iterators");
+            ck!(first_len!(c.$values(), |x: &u8| *x) == (a.n, first.map(|p| p.1)) && first_len!(c.$values_lru(), |x: &u8| *x) == (a.n, last.map(|p| p.1))
                 && first_len!(c.$values_mut(), |x: &mut u8| *x) == (a.n, first.map(|p| p.1)) && first_len!(c.$values_lru_mut(), |x: &mut u8| *x) == (a.n, last.map(|p| p.1)),
                 "[C14.accessor] *_values(_lru)(_mut) hand out that list's value iterators");
             let (post, wf) = c.verif_check();
-            assert!(wf && post == pre, "[C13.readonly][C14.readonly] creating the per-list iterators changes nothing");
+            ck!(wf && post == pre, "[C13.readonly][C14.readonly] creating the per-list iterators changes nothing");
             c.verif_forget();
         }
     };
@@ -396,7 +410,7 @@ fn arc_builder_sound() {
     kani::cover!(a.recent.n + a.frequent.n == a.size && a.recent_evict.n == a.size && a.frequent_evict.n == a.size, "arc builder: everything full");
     kani::cover!(a.size == 1, "arc builder: size 1");
     let (b, wf) = c.verif_check();
-    assert!(wf && b == a, "[C03.builder] every AdaptiveCache state the builder produces is well formed with exactly the intended view");
+    ck!(wf && b == a, "[C03.builder] every AdaptiveCache state the builder produces is well formed with exactly the intended view");
     c.verif_forget();
 }
 
@@ -418,11 +432,11 @@ fn arc_builder_finalize_contract() {
     let b = AdaptiveCacheBuilder { size, recent_hasher: Some(PoisonHasher), recent_evict_hasher: Some(PoisonHasher), freq_hasher: Some(PoisonHasher), freq_evict_hasher: Some(PoisonHasher) };
     let r: Result<Arc4, CacheError> = b.finalize();
     match r {
-        Err(e) => assert!(size == 0 && e == CacheError::InvalidSize(0), "[C05.ctor] Err(InvalidSize(0)) exactly for size 0"),
+        Err(e) => ck!(size == 0 && e == CacheError::InvalidSize(0), "[C05.ctor] Err(InvalidSize(0)) exactly for size 0"),
         Ok(c) => {
             let (a, wf) = c.verif_check();
-            assert!(size != 0 && wf && a.size == size && a.p == 0, "[C05.ctor][C09.p] a fresh ARC cache has the requested size and p = 0");
-            assert!(a.recent == Abs::empty(size) && a.frequent == Abs::empty(size) && a.recent_evict == Abs::empty(size) && a.frequent_evict == Abs::empty(size),
+            ck!(size != 0 && wf && a.size == size && a.p == 0, "[C05.ctor][C09.p] a fresh ARC cache has the requested size and p = 0");
+            ck!(a.recent == Abs::empty(size) && a.frequent == Abs::empty(size) && a.recent_evict == Abs::empty(size) && a.frequent_evict == Abs::empty(size),
                 "[C05.ctor][C03.wf][C01.cap] all four lists are empty with capacity `size`");
             c.verif_forget();
         }
@@ -460,14 +474,14 @@ fn arc_put_leakcheck() {
     let r = c.put(Tk(k), Tv(v));
     drop(r);
     if hit {
-        assert!(drops(k) == 1, "[C04.once] on an update or revival the surplus key object is dropped exactly once");
+        ck!(drops(k) == 1, "[C04.once] on an update or revival the surplus key object is dropped exactly once");
         set_drops(k, 0);
     }
     let (post, wf) = c.verif_check();
-    assert!(wf, "[C03.wf] lists well formed after put with heap-tracked payloads");
-    assert!(conserved(created, ids_of(&[&post.recent, &post.frequent, &post.recent_evict, &post.frequent_evict])), "[C04.once] after put every key and value is retained (resident or ghost), or was handed back, or was dropped exactly once (trimmed ghosts included)");
+    ck!(wf, "[C03.wf] lists well formed after put with heap-tracked payloads");
+    ck!(conserved(created, ids_of(&[&post.recent, &post.frequent, &post.recent_evict, &post.frequent_evict])), "[C04.once] after put every key and value is retained (resident or ghost), or was handed back, or was dropped exactly once (trimmed ghosts included)");
     drop(c);
-    assert!(conserved(created, 0), "[C04.drop] dropping the cache releases every retained key and value exactly once");
+    ck!(conserved(created, 0), "[C04.drop] dropping the cache releases every retained key and value exactly once");
 }
 
 // ------------------------------------------------------------------ ownership with heap-owning values (C04), cheap variant
@@ -500,11 +514,11 @@ fn arc_put_boxed_values() {
         PutResult::EvictedAndUpdate { update, .. } => Some(**update),
     };
     if let Some(x) = lookup(&[&t1, &t2, &b1, &b2], k) {
-        assert!(back == Some(x), "[C04.handback][C12.result] the old value handed back by an update or revival is the stored one, still alive");
+        ck!(back == Some(x), "[C04.handback][C12.result] the old value handed back by an update or revival is the stored one, still alive");
     }
     drop(r);
     let (post, wf) = c.verif_check();
-    assert!(wf, "[C03.wf] lists well formed with heap-owning values");
-    assert!(lookup(&[&post.recent, &post.frequent], k) == Some(v), "[C04.alive][C02.value] the stored value is alive and is the one just put");
+    ck!(wf, "[C03.wf] lists well formed with heap-owning values");
+    ck!(lookup(&[&post.recent, &post.frequent], k) == Some(v), "[C04.alive][C02.value] the stored value is alive and is the one just put");
     c.verif_forget();
 }
